@@ -342,3 +342,17 @@ def run(repo, rep):
     from . import c06
 
     rep.run_borrowed(c06, {'C06-e': 'C09-f'}, repo)
+
+    # squared difference: each input's explicit scaling pairs that input's own shift with its own multiplier
+    sqd = repo.mod("tflite_graph_optimiser").func("convert_squared_difference")
+    import re as _re9
+
+    n_es = 0
+    for c_ in calls_in(sqd):
+        if call_name(c_) == "ExplicitScaling" and len(c_.args) >= 3:
+            idxs = set(_re9.findall(r"input(\d)_(?:shift|multiplier)", str(norm(c_))))
+            if idxs:
+                n_es += 1
+                rep.check(len(idxs) == 1, "C09-c", "ethosu/vela/tflite_graph_optimiser.py:convert_squared_difference", f"`{str(norm(c_))[:70]}` pairs the shift and multiplier of one input",
+                          f"mixes inputs {sorted(idxs)}: the pair is off by a power of two whenever the two input scales differ")
+    rep.check(n_es >= 2, "C09-c", "ethosu/vela/tflite_graph_optimiser.py:convert_squared_difference", "per-input explicit scalings found", str(n_es))
